@@ -765,3 +765,4 @@ Section Fix.
     apply map_ext_in. intros n Hn. apply strip_node_idem. apply Hclean. exact Hn.
   Qed.
 End Fix.
+
